@@ -40,15 +40,63 @@ def height(t):
     return 0 if t[0] == 'leaf' else 1 + max([height(k) for k in t[1]] + [0])
 
 
-def gen_wf(rng, shape):
+def sections_tree(rng, depth=None):
+    """mixes of pages and intermediate nodes on every level: most intermediate nodes (also empty ones) are followed by
+    further siblings, so that the iterator has to come back to the parent level many times"""
+    leaf = ('leaf',)
+    def sect(d):
+        r = rng.random()
+        if d == 0 or r < 0.3:
+            return ('node', [leaf for _ in range(rng.choice([0, 1, 1, 1, 2, 3]))])
+        return ('node', mix(d - 1, rng.randint(1, 4)))
+    def mix(d, n):
+        kids = [sect(d) if rng.random() < 0.65 else leaf for _ in range(n)]
+        if rng.random() < 0.75:
+            kids.append(leaf)          # a page after the last section of the level
+        return kids
+    if depth is None:
+        depth = rng.choice([0, 0, 1, 1, 2, 3])
+    return ('node', mix(depth, rng.randint(2, 9)))
+
+
+def comb_tree(rng):
+    """deep and wide at once: a spine whose nodes carry small sections and pages before and after the spine kid"""
+    leaf = ('leaf',)
+    def side():
+        out = []
+        for _ in range(rng.randint(0, 3)):
+            out.append(leaf if rng.random() < 0.4 else ('node', [leaf for _ in range(rng.randint(0, 2))]))
+        return out
+    t = ('node', [leaf for _ in range(rng.randint(0, 2))])
+    for _ in range(rng.choice([2, 3, 5, 8, 20, 60])):
+        t = ('node', side() + [t] + side())
+    return t
+
+
+def make_tree(rng, shape):
     if shape == 'random':
-        t = build_tree(rng, rng.randint(1, 6), rng.randint(1, 5), 0.15)
-    elif shape == 'chain':
-        t = chain_tree(rng, rng.choice([1, 2, 5, 40, LIMIT - 1, LIMIT, LIMIT + 1, LIMIT + 2, LIMIT + 3]), rng.choice([0, 1, 2]))
-    else:  # wide
-        t = ('node', [('leaf',) for _ in range(rng.randint(0, 60))])
+        return build_tree(rng, rng.randint(1, 6), rng.randint(1, 5), 0.15)
+    if shape == 'chain':
+        return chain_tree(rng, rng.choice([1, 2, 5, 40, LIMIT - 1, LIMIT, LIMIT + 1, LIMIT + 2, LIMIT + 3]), rng.choice([0, 1, 2]))
+    if shape == 'sections':
+        return sections_tree(rng)
+    if shape == 'comb':
+        return comb_tree(rng)
+    return ('node', [('leaf',) for _ in range(rng.randint(0, 60))])   # wide
+
+
+def count_leaves(t):
+    return 1 if t[0] == 'leaf' else sum(count_leaves(k) for k in t[1])
+
+
+def gen_wf(rng, shape, bare=False, exact_counts=False):
+    """exact_counts: every Count is the number of leaves below the node (else a random mix of right and wrong counts).
+    bare: the document holds the page tree and the catalog and 0..3 further objects (mostly none), no indirection
+    objects -- iter_limit = |objects| has the least possible slack there"""
+    t = make_tree(rng, shape)
     n = count_nodes(t)
-    extra = rng.randint(0, 4)
+    extra = rng.choice([0, 0, 0, 1, 2, 3]) if bare else rng.randint(0, 4)
+    p_ind, p_kref = (0.0, 0.0) if bare else (0.1, 0.25)
     ids = fresh_ids(rng, n + 3 * n + extra + 2)   # room for indirections
     it = iter(ids)
     objects = []
@@ -57,7 +105,7 @@ def gen_wf(rng, shape):
         me = next(it)
         target = me
         # occasionally put the node behind an indirect reference object
-        if rng.random() < 0.1:
+        if rng.random() < p_ind:
             target = next(it)
             objects.append((me, REF(*target)))
         if t[0] == 'leaf':
@@ -69,8 +117,14 @@ def gen_wf(rng, shape):
         else:
             kid_ids = [emit(k, me) for k in t[1]]
             arr = A([REF(*k) for k in kid_ids])
-            ent = [('Type', N('Pages')), ('Count', I(rng.choice([len(kid_ids), 0, -5, 10**6])))]
-            if rng.random() < 0.25:
+            nl = count_leaves(t)
+            cnt = nl if exact_counts else rng.choice([nl, nl, len(kid_ids), 0, -5, 10**6, max(0, nl - 1), nl + 1, None, 'name'])
+            ent = [('Type', N('Pages'))]
+            if cnt == 'name':
+                ent.append(('Count', N('many')))
+            elif cnt is not None:
+                ent.append(('Count', I(cnt)))
+            if rng.random() < p_kref:
                 # Kids behind a chain of 1..3 references
                 hops = rng.randint(1, 3)
                 cur = arr
@@ -100,7 +154,7 @@ def gen_wf(rng, shape):
 def gen_malformed(rng):
     """start from a well-formed document and damage it"""
     while True:
-        doc, leaves, wf, t = gen_wf(rng, rng.choice(['random', 'random', 'wide']))
+        doc, leaves, wf, t = gen_wf(rng, rng.choice(['random', 'random', 'wide', 'sections', 'comb']), bare=rng.random() < 0.4)
         if count_nodes(t) >= 2:
             break
     # re-generate structurally so that we can damage: simplest is textual surgery on the case
@@ -188,19 +242,24 @@ def gen_malformed(rng):
 
 
 def gen_cases(rng, tier):
-    n = 150 if tier == 'quick' else 3000
+    n = 240 if tier == 'quick' else 6000
     cases = []
     for k in range(n):
         r = rng.random()
-        if r < 0.55:
-            shape = rng.choice(['random', 'random', 'random', 'chain', 'wide'])
-            doc, leaves, wf, t = gen_wf(rng, shape)
+        if r < 0.6:
+            shape = rng.choice(['random', 'random', 'chain', 'wide', 'sections', 'sections', 'sections', 'comb', 'comb'])
+            bare = rng.random() < (0.6 if shape in ('sections', 'comb') else 0.3)
+            exact = rng.random() < 0.5
+            doc, leaves, wf, t = gen_wf(rng, shape, bare, exact)
             exp = L('leaves', *[OID(*l) for l in leaves]) if wf else L('malformed')
-            cases.append((L('case', doc, exp), {'kind': 'wf-' + shape if wf else 'too-deep',
-                                               'nontrivial': len(leaves) >= 2}))
+            flags = L('flags', *(['exact-counts'] if exact else []))
+            cases.append((L('case', doc, exp, flags), {'kind': ('wf-' + shape + ('-bare' if bare else '')) if wf else 'too-deep',
+                                                      'nontrivial': len(leaves) >= 2}))
         else:
             doc, dmg = gen_malformed(rng)
             cases.append((L('case', doc, L('malformed')), {'kind': 'mal-' + dmg, 'nontrivial': True}))
+    # smallest documents first: the first failing case that is reported is then the smallest one found
+    cases.sort(key=lambda c: len(c[0]))
     return cases
 
 
@@ -210,8 +269,11 @@ SPEC = {
     'runner': 'c12',
     'bin': 'c12',
     'gen_cases': gen_cases,
-    'rule': 'random page trees (random/chain up to the depth limit +-1/wide; Kids direct or behind 1-3 references; '
-            'nodes behind indirect reference objects; sparse ids, non-zero generations) and 13 kinds of damage '
+    'rule': 'random page trees (random / chain up to the depth limit +-1 / wide / sections = pages and intermediate nodes, also empty '
+            'ones, interleaved on every level / comb = deep spine carrying sections on both sides; Kids direct or behind 1-3 '
+            'references; nodes behind indirect reference objects; sparse ids, non-zero generations; Count exact or wrong/missing/'
+            'ill-typed; about half of the sections/comb documents are bare: |objects| = tree nodes + catalog + 0..3, no indirection '
+            'objects, i.e. least slack of iter_limit) and 13 kinds of damage '
             '(cycles, duplicates, ill-typed kids, missing/ill-typed Type, dangling, Kids not an array, Root/Pages broken, '
             'Linearized fallback, reference loops); non-trivial = at least 2 leaves or malformed; distinct = distinct case text',
     'extra_trusted': ['C12: model of PageTreeIter merges stack pops into pop_nonempty (justified in Model/PageTree.v header)'],
